@@ -5,7 +5,7 @@ import warnings
 import numpy as np
 
 from harness import gen
-from harness.framework import Suite
+from harness.framework import CaseTimeout, Suite
 
 PID = "C09"
 LEAN_MODS = ["SwcVerif.Props.C09", "SwcVerif.Props.C09Gen"]
@@ -121,6 +121,8 @@ def observe_detached(d, extra):
         if len(d):
             o["nodes"] = {str(j): [int(getattr(d[j], c)) for c in COLS] for j in (0, -1)}
         return o
+    except CaseTimeout:
+        raise
     except Exception as e:  # noqa: BLE001 - the oracle reports it with the view it came from
         return {"raises": f"{type(e).__name__}: {str(e)[:120]}"}
 
@@ -804,6 +806,8 @@ class Handles(Suite):
                      "children": sorted(int(c.id) for c in h.children()), "xyzr": [int(v) for v in h.xyzr()]}
                 try:
                     o["branch"] = [int(v) for v in h.branch().origin_id()]
+                except CaseTimeout:
+                    raise
                 except Exception as e:  # noqa: BLE001
                     o["branch"] = f"{type(e).__name__}: {str(e)[:80]}"
                 # a write through this handle: seen in the owner's column and through a handle made the plain way; then undone
@@ -875,6 +879,8 @@ def observe_adjacency(o):
         m = o.get_adjacency_matrix()
         d = np.asarray(m.toarray())
         return {"shape": [int(q) for q in d.shape], "cells": sorted([int(i), int(j), int(d[i, j])] for i, j in zip(*np.nonzero(d)))}
+    except CaseTimeout:
+        raise
     except Exception as e:  # noqa: BLE001 - the oracle reports it with the object it came from
         return {"raises": f"{type(e).__name__}: {str(e)[:120]}"}
 
@@ -994,7 +1000,257 @@ class Adjacency(Suite):
         return any(e.get("view") and e.get("len", 0) >= 2 and e.get("rows") != list(range(e["len"])) for e in res.get("obs") or [] if isinstance(e, dict))
 
 
-SUITES = [History(), Collections(), Accessors(), Handles(), Adjacency()]
+# ----------------------------------------------------------------------------- the parent column is an attribute like any other
+# `pid` is one of the attributes a node handle assigns (Node.pid has a setter like x / y / z / r / type).  After a node was re-attached through its
+# handle - the tree staying a tree: one root, no cycle - every navigation of the SAME tree object has to describe the (parent, child) pairs the
+# owner's parent column now holds, whatever was asked of that object before; a copy taken at any time keeps the pairs it was copied with.
+LOOKS = ["children", "parents", "segments", "adjacency", "branch", "pid"]
+PID_ROUTES = ["tree[i].pid", "node(i).pid", "tree[i-n].pid", "tree[i][names.pid]", "node(np.int64(i)).pid", "iteration", "child-of-parent", "tree[:][i]"]
+
+
+def subtree_of(pids, i):
+    kids = {}
+    for j, p in enumerate(pids):
+        kids.setdefault(p, []).append(j)
+    seen, todo = {i}, [i]
+    while todo:
+        for c in kids.get(todo.pop(), []):
+            if c not in seen:
+                seen.add(c); todo.append(c)
+    return seen
+
+
+def gen_rewire(rng, pids0, pattern):
+    """a history over object 0 (the tree) and its copies: looks (navigation reads), re-attachments through node handles, writes of other
+    attributes, copies.  `pattern` fixes the backbone, the rest is drawn: look-move-look (the same object asked before and after),
+    move-first (nothing asked before the write), copy-between (a copy taken between the first look and the write, both sides then written)"""
+    cur = [list(pids0)]
+    ops = []
+
+    def look(o, must=None):
+        what = [w for w in LOOKS if rng.random() < 0.5]
+        if must and not any(w in what for w in must):
+            what.append(rng.choice(must))
+        ops.append(["look", o, sorted(set(what), key=LOOKS.index)])
+
+    def move(o):
+        p = cur[o]
+        n = len(p)
+        for _ in range(20):
+            i = rng.randrange(1, n)
+            ok = [q for q in range(n) if q not in subtree_of(p, i) and q != p[i]]
+            if ok:
+                q = rng.choice(ok)
+                ops.append(["move", o, i, q, rng.choice(PID_ROUTES)]); p[i] = q
+                return True
+        return False
+
+    def other(o):
+        ops.append(["write", o, rng.randrange(len(cur[o])), rng.choice(["x", "y", "z", "r", "type"]), rng.randint(-50, 50)])
+
+    def copy(o):
+        ops.append(["copy", o]); cur.append(list(cur[o]))
+
+    nav = ["children", "branch"]
+    if pattern == "look-move-look":
+        look(0, nav); move(0); look(0, nav)
+    elif pattern == "move-first":
+        move(0); look(0, nav)
+    elif pattern == "copy-between":
+        look(0, nav); copy(0); move(rng.choice([0, 1])); look(0, nav); look(1, nav)
+    else:                                   # "free": nothing fixed, all drawn
+        look(0)
+    for _ in range(rng.randint(2, 7)):
+        o = rng.randrange(len(cur))
+        k = rng.choice(["look", "look", "move", "move", "write", "copy"])
+        if k == "look":
+            look(o)
+        elif k == "move":
+            if move(o) and rng.random() < 0.7:
+                look(o, nav)
+        elif k == "write":
+            other(o)
+        elif len(cur) < 4:
+            copy(o)
+    for o in range(len(cur)):               # every object is asked at the end
+        look(o, nav)
+    return ops
+
+
+def observe_topology(t, what):
+    n = len(t)
+    o = {}
+    for w in what:
+        try:
+            if w == "children":
+                o[w] = [[int(c.id) for c in t.node(i).children()] for i in range(n)]
+            elif w == "parents":
+                o[w] = [(-1 if (p := t[i].parent()) is None else int(p.id)) for i in range(n)]
+            elif w == "segments":
+                o[w] = [[int(v) for v in column(s, "id")] for s in t.get_segments()]
+            elif w == "adjacency":
+                o[w] = observe_adjacency(t)
+            elif w == "branch":
+                o[w] = [[int(v) for v in t.node(i).branch().origin_id()] for i in range(n)]
+            else:
+                o[w] = [int(v) for v in t.pid()]
+        except CaseTimeout:
+            raise
+        except Exception as e:  # noqa: BLE001 - the oracle reports it with the history it came from
+            o[w] = {"raises": f"{type(e).__name__}: {str(e)[:120]}"}
+    return o
+
+
+class TopologyWrites(Suite):
+    """the parent of a node assigned through a node handle (`tree[i].pid = q`, every route to a handle, the tree staying a tree), interleaved with
+    navigation reads of the same object, writes of other attributes and copy(): `Tree.Node.parent` / `children` / `branch`, `Tree.get_segments`,
+    `get_adjacency_matrix` and the parent column itself describe, at every moment, the (parent, child) pairs the owner holds at that moment -
+    the same object asked before and after the write - and a copy keeps the pairs it was copied with until it is written itself"""
+    name = "c09.topology-writes"
+    case_timeout = 5.0      # (tiny trees; a navigation that does not end on a re-attached tree is reported, not waited for)
+
+    PATTERNS = ["look-move-look", "move-first", "copy-between", "free"]
+
+    def cases(self, rng, tier, widen):
+        out = []
+        big = tier == "thorough" or widen
+        k = rng.randrange(len(gen.SHAPES))
+        for n in [3, 4, 6, 9, 13] + ([30, 80] if big else []):
+            for j in range(8 if not big else 16):
+                shape = gen.pick_shape(rng, k)
+                while shape in ("single", "two"):       # (re-attaching needs three nodes)
+                    k += 1; shape = gen.pick_shape(rng, k)
+                pids = gen.renumber_root0(rng, gen.parents_sorted(rng, n, shape))
+                nn = len(pids)
+                t = {"n": nn, "pids": pids, "types": [1] + [rng.choice([2, 3, 4]) for _ in range(nn - 1)],
+                     "xyz": [[float(rng.randint(-30, 30)) for _ in range(3)] for _ in range(nn)], "r": [float(rng.randint(1, 9)) for _ in range(nn)]}
+                decorate(rng, t, k); k += 1
+                pattern = self.PATTERNS[j % len(self.PATTERNS)]
+                out.append({"class": "pid-write/" + pattern + ("/names" if t["names"] else ""), "tree": t, "pattern": pattern,
+                            "ops": gen_rewire(rng, pids, pattern), "strided": rng.random() < 0.5})
+        return out
+
+    def run(self, case):
+        objs = [build_tree(case["tree"], strided=bool(case.get("strided")))]
+        outs = []
+        for op in case["ops"]:
+            t = objs[op[1]]
+            n = len(t)
+            if op[0] == "look":
+                outs.append(observe_topology(t, op[2]))
+            elif op[0] == "copy":
+                objs.append(t.copy()); outs.append("ok")
+            elif op[0] == "write":
+                setattr(t[op[2]], op[3], op[4]); outs.append("ok")
+            else:
+                i, q, route = op[2], op[3], op[4]
+                try:
+                    if route == "tree[i][names.pid]":
+                        t[i][t.names.pid] = q
+                    else:
+                        if route == "node(i).pid":
+                            h = t.node(i)
+                        elif route == "tree[i-n].pid":
+                            h = t[i - n]
+                        elif route == "node(np.int64(i)).pid":
+                            h = t.node(np.int64(i))
+                        elif route == "iteration":
+                            h = list(t)[i]
+                        elif route == "tree[:][i]":
+                            h = t[:][i]
+                        elif route == "child-of-parent":
+                            # the handle the tree itself hands out for this node: from children() of its present parent (fallback: tree[i])
+                            h = next((c for c in t.node(int(t.pid()[i])).children() if int(c.id) == i), None) or t[i]
+                        else:
+                            h = t[i]
+                        h.pid = q
+                    outs.append("ok")
+                except CaseTimeout:
+                    raise
+                except Exception as e:  # noqa: BLE001
+                    outs.append({"raises": f"{type(e).__name__}: {str(e)[:120]}"})
+        return {"outs": outs}
+
+    def oracle(self, case, res):
+        t = case["tree"]
+        if "exc" in res:
+            return [("topology-write-raises", f"{res['exc']}: {res.get('msg')} (pids={t['pids']}, ops={case['ops']})")]
+        outs = res.get("outs")
+        if not isinstance(outs, list) or len(outs) != len(case["ops"]):
+            return [("topology-write-raises", f"malformed result {str(outs)[:200]}")]
+        cur = [list(t["pids"])]
+        out = []
+        hist = []
+        for op, got in zip(case["ops"], outs):
+            o = op[1]
+            if op[0] == "copy":
+                cur.append(list(cur[o]))
+            elif op[0] == "move":
+                if got != "ok":
+                    out.append(("node-write", f"object {o}: pid of node {op[2]} := {op[3]} through {op[4]} fails: {got} (pids={cur[o]})")); break
+                cur[o][op[2]] = op[3]
+            if op[0] != "look":
+                hist.append(op); continue
+            pids = cur[o]
+            n = len(pids)
+            who = (f"object {o} ({'the tree' if o == 0 else 'a copy'}), initial pids={t['pids']}, after {hist or 'nothing'}: "
+                   f"its parent column must be {pids};")
+            if not isinstance(got, dict):
+                out.append(("topology-write-raises", f"{who} malformed observation {got!r}")); break
+            bad = None
+            for w in op[2]:
+                g = got.get(w)
+                if isinstance(g, dict) and "raises" in g or g is None:
+                    bad = ("topology-write-raises", f"{who} {w} cannot be asked: {g}"); break
+                if w == "pid" and g != pids:
+                    bad = ("node-write", f"{who} pid() is {g}")
+                elif w == "parents" and g != pids:
+                    bad = ("node-parent", f"{who} node handles report the parents {g}")
+                elif w == "children":
+                    want = [[j for j in range(n) if pids[j] == i] for i in range(n)]
+                    if not isinstance(g, list) or len(g) != n or [sorted(x) for x in g] != want:
+                        k = next((i for i in range(n) if i >= len(g) or sorted(g[i]) != want[i]), 0) if isinstance(g, list) else 0
+                        bad = ("node-children", f"{who} node {k}.children() are {g[k] if isinstance(g, list) and k < len(g) else g}, "
+                                                f"the rows whose parent is {k} are {want[k]}")
+                elif w == "segments":
+                    want = [[pids[i], i] for i in range(1, n)]
+                    if g != want:
+                        bad = ("tree-segments", f"{who} get_segments() are {g}, the (parent, child) pairs are {want}")
+                elif w == "adjacency":
+                    want = {"shape": [n, n], "cells": sorted([p, i, 1] for i, p in enumerate(pids) if p >= 0)}
+                    if g != want:
+                        g = g if isinstance(g, dict) else {"malformed": g}
+                        bad = ("adjacency-edges", f"{who} get_adjacency_matrix() has shape {g.get('shape')} and cells {g.get('cells', g)}, "
+                                                  f"the (parent, child) pairs are {want['cells']}")
+                elif w == "branch":
+                    deg = [sum(1 for j in range(n) if pids[j] == i) for i in range(n)]
+                    for i in range(n):
+                        b = g[i] if isinstance(g, list) and i < len(g) else None
+                        if not isinstance(b, list) or i not in b or any(not (0 <= y < n) or pids[y] != x for x, y in zip(b, b[1:])) \
+                                or any(deg[x] != 1 for x in b[1:-1]):
+                            bad = ("node-branch", f"{who} node {i}.branch() is {b}, which is not an unbranched run of (parent, child) pairs through node {i}")
+                            break
+                if bad:
+                    break
+            if bad:
+                out.append(bad); break
+            hist.append(["look", o])
+        return out[:3]
+
+    def nontrivial(self, case, res):
+        # the same object navigated (children / branch) before AND after one of its nodes was re-attached
+        seen, moved = set(), set()
+        for op in case["ops"]:
+            if op[0] == "look" and ("children" in op[2] or "branch" in op[2]):
+                if op[1] in moved:
+                    return True
+                seen.add(op[1])
+            elif op[0] == "move" and op[1] in seen:
+                moved.add(op[1])
+        return False
+
+
+SUITES = [History(), Collections(), Accessors(), Handles(), Adjacency(), TopologyWrites()]
 TECHNIQUE = ("Lean 4 theorems about a heap model of owners, arrays and index-holding views (a view's read is the owner's current content at its indices after any "
              "history; a tree-node write lands in the owner and is seen by every view; copy / detach allocate fresh arrays, so for every later interleaving of "
              "writes neither side sees the other's; segment construction) + differential correspondence on random operation histories + np.shares_memory oracle")
